@@ -134,17 +134,21 @@ Theorem C06_guarded_unlink_is_model_unlink :
 Proof. exact guarded_unlink_is_model_unlink. Qed.
 
 (* The regenerated branching itself: the recorded hash is compared whatever lstat reports for the queued path,
-   and for the path handed to `stepup clean`; `clean` treats a path as missing when stat (following links) fails. *)
+   and for the path handed to `stepup clean`.  (Whether `clean` decides "missing" with exists() or lexists() is
+   regenerated too and no longer pinned: C06_removed_only_owned_clean is proved for both.) *)
 Theorem C06_hash_compared_for_every_kind :
-  (forall k, rdf_hash_checked k = true) /\ (forall k, clean_hash_checked k = true) /\
-  clean_missing_follows_links = true.
-Proof. exact (conj gen_rdf_hash_checked (conj gen_clean_hash_checked gen_clean_missing_follows)). Qed.
+  (forall k, rdf_hash_checked k = true) /\ (forall k, clean_hash_checked k = true).
+Proof. exact (conj gen_rdf_hash_checked gen_clean_hash_checked). Qed.
 
 (* The same for `stepup clean` (selection logic and state filter regenerated from clean.py), with
    the --unsafe exception; without --commit nothing is removed at all. *)
 Theorem C06_removed_only_owned_clean :
   forall g a trs f ever,
     (forall n, In n (gnodes g) -> nkind n = KFILE -> is_output_role (nfstate n) = true -> In (nlabel n) ever) ->
+    (* only when `missing` is decided without following links (lexists): rows in a hashed output state carry a
+       hash -- the CHECK constraint of the file table; vacuous for the code as it is (exists) *)
+    (forall n, In n (gnodes g) -> clean_missing_follows_links = false ->
+               memN (nfstate n) volatile_states = false -> nfhash n <> None) ->
     forall p, In p (k_files (clean_tool g a trs f)) ->
       exists n, In n (gnodes g) /\ nkind n = KFILE /\ nlabel n = p /\
         In p ever /\ memN (nfstate n) static_states = false /\ is_output_role (nfstate n) = true /\
